@@ -1,1 +1,174 @@
-fn main() {}
+//! C15 — what the Ribbit server emits, the Ribbit client reads back as the database says.
+//!
+//! Generated build databases are loaded by the real `AppState::new`; the real
+//! `cascette_ribbit::tcp::start_server` and `http::start_server` run on probed
+//! loopback ports inside the case's own current-thread runtime; this project's
+//! own clients (`RibbitClient` v1 + v2, `TactClient`) query every product and
+//! endpoint; the oracle is the generated database.
+
+mod strat;
+mod model;
+mod net;
+
+use model::*;
+use net::*;
+use serde::{Deserialize, Serialize};
+use std::sync::{Arc, Mutex};
+use vh_engine::{Check, Known, Section, Tier, Verdict};
+
+pub struct Ctx {
+    pub known: Known,
+    pub infra: Mutex<Vec<String>>,
+    pub tier: Tier,
+}
+
+impl Ctx {
+    pub fn infra(&self, s: String) {
+        let mut g = self.infra.lock().unwrap();
+        if g.len() < 32 {
+            g.push(s);
+        }
+    }
+}
+
+/// One database case: every product x endpoint x transport is queried.
+#[derive(Debug, Clone, Serialize, Deserialize)]
+pub struct DbCase {
+    pub db: DbDesc,
+}
+
+/// Hostile traffic case.
+#[derive(Debug, Clone, Serialize, Deserialize)]
+pub struct HostileCase {
+    pub db: DbDesc,
+    /// one request list per concurrent hostile client
+    pub clients: Vec<Vec<Hostile>>,
+}
+
+fn verdict_from(ctx: &Ctx, mut v: Verdict, findings: Vec<Finding>) -> Verdict {
+    for f in findings {
+        if ctx.known.is_open(&f.key) {
+            if !v.known_hits.contains(&f.key) {
+                v.known_hits.push(f.key);
+            }
+        } else {
+            v = v.with_fail(f.key, f.msg);
+        }
+    }
+    v
+}
+
+fn check_db(ctx: &Ctx, c: &DbCase) -> Verdict {
+    let run = match run_db_case(ctx, &c.db) {
+        Ok(r) => r,
+        Err(CaseAbort::Rejected(_why)) => return Verdict::pass().class("db-rejected-by-validation"),
+        Err(CaseAbort::Infra(m)) => {
+            ctx.infra(m);
+            return Verdict::pass().class("infra-skipped");
+        }
+    };
+    let mut v = Verdict::pass().nontrivial(run.nontrivial);
+    for cl in &run.classes {
+        v = v.class(cl);
+    }
+    verdict_from(ctx, v, run.findings)
+}
+
+fn check_hostile(ctx: &Ctx, c: &HostileCase) -> Verdict {
+    let run = match run_hostile_case(ctx, c) {
+        Ok(r) => r,
+        Err(CaseAbort::Rejected(_why)) => return Verdict::pass().class("db-rejected-by-validation"),
+        Err(CaseAbort::Infra(m)) => {
+            ctx.infra(m);
+            return Verdict::pass().class("infra-skipped");
+        }
+    };
+    let mut v = Verdict::pass().nontrivial(run.nontrivial);
+    for cl in &run.classes {
+        v = v.class(cl);
+    }
+    verdict_from(ctx, v, run.findings)
+}
+
+fn drain_infra(ck: &mut Check, ctx: &Ctx) {
+    let msgs: Vec<String> = std::mem::take(&mut *ctx.infra.lock().unwrap());
+    for m in msgs {
+        ck.infra(m);
+    }
+}
+
+fn main() {
+    let mut ck = Check::from_args("C15", "exploration");
+    install_panic_log();
+    let tier = ck.tier;
+    let thorough = tier == Tier::Thorough;
+    ck.extra(
+        "rule",
+        "generated build databases (1-6 products x 1-4 builds; benign and adversarial strings that validation lets through; \
+         same-offset, mixed-offset and tied timestamps) served by the real tcp/http start_server on loopback; every queryable \
+         product x {versions,cdns,bgdl} x {RibbitClient v1, RibbitClient v2, TactClient http} + v1/summary compared with the \
+         database (typed values; newest = chronologically latest, ties: any). Non-trivial = database accepted, at least one \
+         query answered, and a queried product has >= 2 builds or an optional field present. Hostile section: non-trivial = \
+         at least one hostile request completed while a well-formed probe was answered."
+            .into(),
+    );
+    ck.assume("region lists (7 for versions/bgdl, 5 for cdns) and the Hosts/Path defaults are read from the server code and ServerConfig, not from the database");
+    ck.assume("HTTP requests are made with the product percent-encoded (RFC 3986 path segment); products '.' and '..' are not requested over HTTP");
+    ck.assume("TCP requests are made only for products without '/' and without a line feed (they cannot be named in a request line)");
+    ck.assume("'several clients at once' runs on the real kernel with tasks interleaved on one runtime thread: best effort, not all schedules");
+    if let Some(e) = model::self_test() {
+        ck.infra(format!("model self-test failed: {e}"));
+        ck.finish();
+    }
+    let ctx = Arc::new(Ctx { known: ck.known().clone(), infra: Mutex::new(Vec::new()), tier });
+
+    // 1. one feature at a time (deterministic)
+    let c1 = ctx.clone();
+    ck.run(
+        Section::enumerate(
+            "db-features",
+            "hand-enumerated single-feature databases: every special character x {product, version, cdn_path} x {start, middle, end}; \
+             build/keyring/hash-case/timestamp variants one at a time",
+            || Box::new(strat::feature_cases().into_iter().map(|db| DbCase { db })),
+            move |c: &DbCase| check_db(&c1, c),
+        )
+        .shards(tier.pick(12, 16)),
+    );
+    drain_infra(&mut ck, &ctx);
+
+    // 2. random databases
+    let c2 = ctx.clone();
+    ck.run(
+        Section::pbt(
+            "db-roundtrip",
+            tier.pick(150, 10_000),
+            || {
+                use proptest::strategy::Strategy;
+                strat::db_strategy().prop_map(|db| DbCase { db }).boxed()
+            },
+            move |c: &DbCase| check_db(&c2, c),
+        )
+        .shards(tier.pick(12, 16))
+        .shrink_iters(tier.pick(300, 1000)),
+    );
+    drain_infra(&mut ck, &ctx);
+
+    // 3. hostile request lines from 4 concurrent clients
+    let c3 = ctx.clone();
+    ck.run(
+        Section::pbt(
+            "hostile-clients",
+            tier.pick(40, 2_000),
+            move || {
+                use proptest::strategy::Strategy;
+                strat::hostile_strategy(thorough).boxed()
+            },
+            move |c: &HostileCase| check_hostile(&c3, c),
+        )
+        .shards(tier.pick(8, 16))
+        .shrink_iters(tier.pick(100, 400)),
+    );
+    drain_infra(&mut ck, &ctx);
+
+    ck.finish();
+}
